@@ -857,7 +857,7 @@ class ZonalStatistics(AccessorBase):
         else:
             data = do_mean(
                 xx.data,
-                zones.data,
+                np.asarray(zones.data),
                 num_zones,
                 xx.nodata,
                 zones.nodata,
